@@ -217,6 +217,8 @@ type runner struct {
 	rs     *realSched
 	roots  []any // services whose bookkeeping is measured
 	parked map[int]string
+	// preParked: goroutines already parked when the run began
+	preParked map[int]string
 	ctx    context.Context
 
 	series   map[string][]int // container -> size at the end of each epoch of the run
@@ -228,6 +230,7 @@ type runner struct {
 	reorgs          int
 	attestations    int64
 	maxParked       int
+	notQuiescent    int
 	inconclusiveWhy string
 }
 
@@ -370,9 +373,18 @@ func (r *runner) extraGoroutines() int {
 	case excess <= 0:
 		r.parked = map[int]string{}
 	case excess != len(r.parked):
-		r.parked = parkedSenders()
+		r.parked = r.newParked()
 	}
 	return n + len(r.parked)
+}
+
+// newParked: goroutines parked on a channel send inside vouch code since the run began.
+func (r *runner) newParked() map[int]string {
+	res := parkedSenders()
+	for id := range r.preParked {
+		delete(res, id)
+	}
+	return res
 }
 
 func (r *runner) headsIn(epochInRun uint64) bool {
@@ -389,35 +401,109 @@ func (r *runner) add(sig, format string, a ...any) {
 	r.findings = append(r.findings, finding{sig, fmt.Sprintf(format, a...)})
 }
 
-// checkPending applies (iii) for the slots around the clock.
-func (r *runner) checkPending() {
-	ctrl := r.w.Proc.Ctrl
-	c := r.w.Slot()
-	spe := r.c.P.SlotsPerEpoch
-	lo := uint64(0)
-	if c > 2*spe {
-		lo = c - 2*spe
-	}
-	jobs := map[uint64]bool{}
-	for _, j := range r.w.Jobs() {
-		if j.Kind == c03world.KAttest {
-			jobs[j.Slot] = true
-		}
-	}
-	for s := lo; s <= c+3*spe; s++ {
-		if r.stale[s] {
+// activeInVouch counts goroutines that are doing something inside vouch code
+// (anything but being parked for ever on a channel or waiting as a scheduler job).
+func activeInVouch() (int, string) {
+	n := 0
+	what := ""
+	for _, g := range goroutines() {
+		if g.fn == "" {
 			continue
 		}
-		has := ctrl.HasPendingAttestations(r.ctx, phase0.Slot(s))
-		switch {
-		case has && !jobs[s]:
-			r.stale[s] = true
-			r.add("pending-attestations-mark-without-job", "HasPendingAttestations(%d) is true at clock slot %d but no attestation job for slot %d exists or is executing", s, c, s)
-		case !has && jobs[s]:
-			r.stale[s] = true
-			r.add("attestation-job-without-pending-mark", "an attestation job for slot %d exists at clock slot %d but HasPendingAttestations(%d) is false", s, c, s)
+		if strings.HasPrefix(g.top, vouchPath) && (g.state == "chan send" || g.state == "chan receive") {
+			continue
+		}
+		if g.state == "select" && strings.HasPrefix(g.fn, "services/scheduler/advanced.(*Service).Schedule") && strings.HasPrefix(g.top, vouchPath+"services/scheduler/advanced") {
+			continue // a job of the real scheduler waiting for its time
+		}
+		if strings.Contains(g.top, "c20.(*pool).do") && g.state == "chan receive" {
+			continue // a node double that never answers
+		}
+		n++
+		what = g.fn + " [" + g.state + "] in " + g.top
+	}
+	return n, what
+}
+
+// checkPending applies (iii) for the slots around the clock.  A disagreement is
+// only a verdict if, by the stack dump, nothing is running inside vouch code
+// (an independent confirmation of quiescence).
+func (r *runner) checkPending() {
+	type anomaly struct {
+		slot     uint64
+		sig, msg string
+	}
+	eval := func() []anomaly {
+		var res []anomaly
+		ctrl := r.w.Proc.Ctrl
+		c := r.w.Slot()
+		spe := r.c.P.SlotsPerEpoch
+		lo := uint64(0)
+		if c > 2*spe {
+			lo = c - 2*spe
+		}
+		jobs := r.attestJobSlots()
+		for s := lo; s <= c+3*spe; s++ {
+			if r.stale[s] {
+				continue
+			}
+			has := ctrl.HasPendingAttestations(r.ctx, phase0.Slot(s))
+			switch {
+			case has && !jobs[s]:
+				res = append(res, anomaly{s, "pending-attestations-mark-without-job", fmt.Sprintf("HasPendingAttestations(%d) is true at clock slot %d but no attestation job for slot %d exists or is executing", s, c, s)})
+			case !has && jobs[s]:
+				res = append(res, anomaly{s, "attestation-job-without-pending-mark", fmt.Sprintf("an attestation job for slot %d exists at clock slot %d but HasPendingAttestations(%d) is false", s, c, s)})
+			}
+		}
+		return res
+	}
+	as := eval()
+	if len(as) == 0 {
+		return
+	}
+	deadline := time.Now().Add(20 * time.Second)
+	for {
+		n, what := activeInVouch()
+		if n == 0 {
+			break
+		}
+		if r.notQuiescent == 0 {
+			jobs := 0
+			if r.rs != nil {
+				jobs = r.rs.goroutines()
+			}
+			states := map[string]int{}
+			for _, g := range goroutines() {
+				states[g.state+"|"+g.fn+"|"+g.top]++
+			}
+			ev.Note("not-quiescent-diagnostic", fmt.Sprintf("goroutines=%d baseline=%d held=%d jobs=%d parked=%d inflight=%d executing=%d active=%s all=%v",
+				runtime.NumGoroutine(), r.w.Baseline(), r.pool.held.Load(), jobs, len(r.parked), r.pool.inflight.Load(), r.w.Executing(), what, states))
+		}
+		r.notQuiescent++
+		if time.Now().After(deadline) {
+			r.inconclusiveWhy = "pending-attestations check: a goroutine stayed active in vouch code: " + what
+			return
+		}
+		time.Sleep(2 * time.Millisecond)
+	}
+	for _, a := range eval() {
+		r.stale[a.slot] = true
+		r.add(a.sig, "%s%s", a.msg, r.history(a.slot))
+	}
+}
+
+// history lists the recent scheduler operations on the attestation job of a slot.
+func (r *runner) history(slot uint64) string {
+	name := fmt.Sprintf("Attestations for slot %d", slot)
+	var b strings.Builder
+	b.WriteString("; scheduler operations on the job:")
+	for _, o := range r.w.Log.SchedOps(0) {
+		if o.Name == name {
+			fmt.Fprintf(&b, " [%d %s@slot%d%s]", o.Seq, o.Op, o.ClockSlot, map[bool]string{true: " err=" + o.Err, false: ""}[o.Err != ""])
 		}
 	}
+	fmt.Fprintf(&b, "; scheduler says exists=%v", r.w.Proc.Sched.JobExists(r.ctx, name))
+	return b.String()
 }
 
 func (r *runner) attestJobSlots() map[uint64]bool {
@@ -522,6 +608,8 @@ func (r *runner) run() error {
 			return rs
 		}
 	}
+	settle()
+	r.preParked = parkedSenders() // left behind by earlier cases of this process; part of the baseline
 	w := c03world.New(&c.P, pattern{c}, opt)
 	r.w = w
 	released := false
@@ -627,6 +715,9 @@ func (r *runner) run() error {
 		by := map[string]int{}
 		other := 0
 		for _, g := range goroutines() {
+			if _, old := r.preParked[g.id]; old {
+				continue
+			}
 			switch {
 			case strings.HasPrefix(g.top, vouchPath) && (g.state == "chan send" || g.state == "chan receive"):
 				by[g.fn+" ["+g.state+"]"]++
@@ -653,6 +744,30 @@ func (r *runner) run() error {
 		}
 	}
 	return nil
+}
+
+// settle waits until no goroutine is active in vouch code (left over from an
+// earlier case in this process: job goroutines of a real scheduler that are
+// being cancelled, released node doubles), so that the goroutine baseline of
+// the next world counts only goroutines that stay.
+func settle() {
+	deadline := time.Now().Add(30 * time.Second)
+	for time.Now().Before(deadline) {
+		active := 0
+		for _, g := range goroutines() {
+			if g.fn == "" {
+				continue
+			}
+			if strings.HasPrefix(g.top, vouchPath) && (g.state == "chan send" || g.state == "chan receive") {
+				continue // parked for ever
+			}
+			active++
+		}
+		if active == 0 {
+			return
+		}
+		time.Sleep(5 * time.Millisecond)
+	}
 }
 
 func check(t ev.TB, c *Case) {
@@ -683,6 +798,7 @@ func check(t ev.TB, c *Case) {
 	ev.LabelN("epochs-run", int64(c.Epochs))
 	ev.LabelN("reorgs", int64(r.reorgs))
 	ev.LabelN("withdrawn-slots", int64(r.withdrawn))
+	ev.LabelN("pending-check-found-world-not-quiescent", int64(r.notQuiescent))
 	if r.w != nil {
 		ev.LabelN("jobs-fired", int64(r.w.Fired()))
 	}
